@@ -555,7 +555,7 @@ class DeserializationMethodVisitor(
                 is_typed_dict(cls),
                 tuple(validators),
                 tuple(
-                    (f.name, f.default_factory)
+                    (f.name, alias_by_name[f.name], f.default_factory)
                     for f in fields
                     if f.kind == FieldKind.WRITE_ONLY
                 ),
